@@ -42,7 +42,13 @@ func (db *DB) VerifSyncState() (syncedToWALEnd bool, lastSyncedWALOffset int64, 
 func (db *DB) VerifHasReadLock() bool {
 	db.mu.Lock()
 	defer db.mu.Unlock()
-	return db.rtx != nil
+	if db.rtx == nil {
+		return false
+	}
+	// A transaction that database/sql rolled back behind the DB's back (its
+	// context was canceled) no longer holds the lock although db.rtx is set.
+	var n int
+	return db.rtx.QueryRow(`SELECT 1`).Scan(&n) == nil
 }
 
 // VerifLocksFree reports whether the executor semaphore and the checkpoint lock are free.
